@@ -389,6 +389,12 @@ def st_case(draw):
                          draw(st.sampled_from(['list', 'tuple', 'gen', 'iter', 'map']))])
         else:
             reqs.append(['get', draw(st.sampled_from(names_all)), draw(st.booleans())])
+    aliases_all = [(a, ms) for p_ in parts for a, ms in p_.get('alias', {}).items()]
+    if aliases_all and draw(st.integers(0, 2)) == 0:
+        # every member of one alias is requested and held first, then the alias (valid or not), then once more
+        a, ms = draw(st.sampled_from(aliases_all))
+        tail = [['get', m, True] for m in ms] + [['get', a, draw(st.booleans())], ['get', a, False]]
+        reqs = (reqs + tail) if draw(st.booleans()) else (tail + reqs)
     if draw(st.integers(0, 3)) == 0:
         # a name that reads like a list of two other names, held alive, then that list is requested (and back)
         reqs += [['get', 'train+dev', True], ['get', ['train', 'dev'], 'list'], ['get', 'dev+test', True],
@@ -424,6 +430,11 @@ def run_shard(tier, idx, nshards, rec, known):
                  'extra': ex('extra', ['e'])}
             fixed.append({'parts': [{'datasets': d, 'alias': {'all': members}}],
                           'requests': [['get', 'all', False], ['get', 'train', True], ['get', 'all', False]]})
+            # ... and the same alias requested while EVERY member dataset is alive in the caller's hands (whatever
+            # the database re-uses from them, the overlap is still an overlap)
+            fixed.append({'parts': [{'datasets': d, 'alias': {'all': members}}],
+                          'requests': [['get', m, True] for m in members] + [['get', 'all', False],
+                                                                              ['get', 'all', True]]})
         # (b) three parts: a name introduced by the SECOND part (alias or dataset) comes again in the THIRD
         for second, third in (('alias', 'alias'), ('alias', 'datasets'), ('datasets', 'alias'), ('datasets', 'datasets')):
             p1 = {'datasets': {'train': ex('train', ['a'])}}
